@@ -1073,6 +1073,130 @@ theorem dot_support (A : ι → κ₁ → ℝ) (B : κ₁ → κ₂ → ℝ) (hA
 
 end dotsupport
 
+/-! ### Aggregation composes (`lemma_agg_compose`, multi-level Louvain): aggregating the level matrix `Wl = agg W cur`
+by a partition `p` of the super-nodes is aggregating `W` by the composed labelling `p ∘ cur`; total weight and modularity
+are preserved.  `ι` original nodes, `μ` level-1 super-nodes, `ν` labels of the partition of the super-nodes. -/
+section aggcompose
+open BigOperators Finset
+variable {ι : Type} [Fintype ι] [DecidableEq ι] {μ : Type} [Fintype μ] [DecidableEq μ] {ν : Type} [DecidableEq ν]
+
+/-- generic collapse: a sum over pairs of super-nodes selected by `P` of the aggregate is the sum over the pairs of
+original nodes whose super-nodes are selected -/
+lemma agg_collapse (F : ι → ι → ℝ) (cur : ι → μ) (P : μ → μ → Prop) [∀ a b, Decidable (P a b)] :
+    (∑ a, ∑ b, if P a b then agg F cur a b else 0) = ∑ x, ∑ y, if P (cur x) (cur y) then F x y else 0 := by
+  unfold agg
+  have h1 : ∀ a b, (if P a b then ∑ x, ∑ y, (if cur x = a ∧ cur y = b then F x y else 0) else 0)
+      = ∑ x, ∑ y, if cur x = a ∧ cur y = b then (if P a b then F x y else 0) else 0 := by
+    intro a b; by_cases h : P a b <;> simp [h]
+  simp_rw [h1]
+  have h2 : ∀ x y, (∑ a, ∑ b, if cur x = a ∧ cur y = b then (if P a b then F x y else 0) else 0)
+      = if P (cur x) (cur y) then F x y else 0 := by
+    intro x y
+    rw [Finset.sum_eq_single (cur x), Finset.sum_eq_single (cur y)]
+    · simp
+    · intro b _ hb; simp [Ne.symm hb]
+    · intro hn; exact absurd (mem_univ _) hn
+    · intro a _ ha; apply Finset.sum_eq_zero; intro b _; simp [Ne.symm ha]
+    · intro hn; exact absurd (mem_univ _) hn
+  simp_rw [← h2]
+  refine (Finset.sum_congr rfl (fun a _ => Finset.sum_comm)).trans ?_
+  refine Finset.sum_comm.trans ?_
+  refine Finset.sum_congr rfl (fun x _ => ?_)
+  refine (Finset.sum_congr rfl (fun a _ => Finset.sum_comm)).trans ?_
+  exact Finset.sum_comm
+
+/-- AGGREGATION COMPOSES: `agg (agg W cur) p = agg W (p ∘ cur)` -/
+theorem agg_comp' (W : ι → ι → ℝ) (cur : ι → μ) (p : μ → ν) (a b : ν) :
+    agg (fun a' b' => agg W cur a' b') p a b = agg W (p ∘ cur) a b :=
+  agg_collapse W cur (fun a' b' => p a' = a ∧ p b' = b)
+
+/-- same, for a level matrix `Wl` given entrywise (`Wl[a][b] == agg(W, cur, a, b, n)`) -/
+theorem agg_comp (W : ι → ι → ℝ) (cur : ι → μ) (p : μ → ν) (Wl : μ → μ → ℝ)
+    (hWl : ∀ a b, Wl a b = agg W cur a b) (a b : ν) :
+    agg Wl p a b = agg W (p ∘ cur) a b := by
+  have : Wl = fun a' b' => agg W cur a' b' := by funext a' b'; exact hWl a' b'
+  rw [this]; exact agg_comp' W cur p a b
+
+/-- the aggregate keeps the total weight -/
+theorem tot_agg' (W : ι → ι → ℝ) (cur : ι → μ) : tot (fun a b => agg W cur a b) = tot W := by
+  have h := agg_collapse W cur (fun _ _ => True)
+  simpa [tot] using h
+
+theorem tot_agg (W : ι → ι → ℝ) (cur : ι → μ) (Wl : μ → μ → ℝ) (hWl : ∀ a b, Wl a b = agg W cur a b) :
+    tot Wl = tot W := by
+  have : Wl = fun a' b' => agg W cur a' b' := by funext a' b'; exact hWl a' b'
+  rw [this]; exact tot_agg' W cur
+
+/-- within-module sum of an arbitrary kernel: `Qraw (agg F cur) p = Qraw F (p ∘ cur)` -/
+theorem Qraw_agg_comp (F : ι → ι → ℝ) (cur : ι → μ) (p : μ → ν) :
+    Qraw (fun a b => agg F cur a b) p = Qraw F (p ∘ cur) :=
+  agg_collapse F cur (fun a b => p a = p b)
+
+/-- the modularity kernel of the aggregate is the aggregate of the modularity kernel (`s` arbitrary):
+degrees of a super-node are the summed degrees of its members (`rowsum_agg`, `colsum_agg`) -/
+theorem agg_kernel (W : ι → ι → ℝ) (cur : ι → μ) (γ s : ℝ) (a b : μ) :
+    agg (fun x y => W x y - γ * sum1 (W x) * csum W y / s) cur a b
+      = agg W cur a b - γ * sum1 (fun b' => agg W cur a b') * csum (fun a' b' => agg W cur a' b') b / s := by
+  have hr : sum1 (fun b' => agg W cur a b') = ∑ x, if cur x = a then (∑ y, W x y) else 0 := rowsum_agg W cur a
+  have hc : csum (fun a' b' => agg W cur a' b') b = ∑ y, if cur y = b then (∑ x, W x y) else 0 := colsum_agg W cur b
+  rw [hr, hc]
+  have hprod : (∑ x, if cur x = a then (∑ y, W x y) else 0) * (∑ y, if cur y = b then (∑ x, W x y) else 0)
+      = ∑ x, ∑ y, if cur x = a ∧ cur y = b then sum1 (W x) * csum W y else 0 := by
+    rw [Finset.sum_mul_sum]
+    apply Finset.sum_congr rfl; intro x _
+    apply Finset.sum_congr rfl; intro y _
+    by_cases h1 : cur x = a <;> by_cases h2 : cur y = b <;> simp [h1, h2, sum1, csum]
+  have hre : γ * (∑ x, if cur x = a then (∑ y, W x y) else 0) * (∑ y, if cur y = b then (∑ x, W x y) else 0) / s
+      = γ / s * ((∑ x, if cur x = a then (∑ y, W x y) else 0) * (∑ y, if cur y = b then (∑ x, W x y) else 0)) := by
+    ring
+  rw [hre, hprod]
+  unfold agg
+  simp only [Finset.mul_sum, ← Finset.sum_sub_distrib]
+  apply Finset.sum_congr rfl; intro x _
+  apply Finset.sum_congr rfl; intro y _
+  by_cases h : cur x = a ∧ cur y = b
+  · simp only [h, and_self, if_true]; ring
+  · simp [h]
+
+/-- MODULARITY OF THE AGGREGATE: `Q (agg W cur) p γ = Q W (p ∘ cur) γ` (unconditionally; no `tot W ≠ 0` needed) -/
+theorem Q_agg_comp' (W : ι → ι → ℝ) (cur : ι → μ) (p : μ → ν) (γ : ℝ) :
+    Q (fun a b => agg W cur a b) p γ = Q W (p ∘ cur) γ := by
+  rw [Q_eq_Qraw, Q_eq_Qraw, tot_agg' W cur, ← Qraw_agg_comp]
+  congr 2
+  funext a b
+  exact (agg_kernel W cur γ (tot W) a b).symm
+
+theorem Q_agg_comp (W : ι → ι → ℝ) (cur : ι → μ) (p : μ → ν) (Wl : μ → μ → ℝ)
+    (hWl : ∀ a b, Wl a b = agg W cur a b) (γ : ℝ) :
+    Q Wl p γ = Q W (p ∘ cur) γ := by
+  have : Wl = fun a' b' => agg W cur a' b' := by funext a' b'; exact hWl a' b'
+  rw [this]; exact Q_agg_comp' W cur p γ
+
+/-- `lemma_agg_compose(W0, cur, Wl, p, new, gamma, N0, n)` in the shape of the SMT lemma instance:
+`Wl[a][b] == agg(W0, cur, a, b, N0)` for super-nodes `a, b < n`, `new[x] == p[cur[x] - 1]` for nodes `x < N0`  ⟹
+`agg(Wl, p, a, b, n) == agg(W0, new, a, b, N0)`, `tsum(Wl, n) == tsum(W0, N0)`, `Qmod(Wl, p, g, n) == Qmod(W0, new, g, N0)` -/
+theorem agg_compose_smt (W : ι → ι → ℝ) (cur : ι → μ) (Wl : μ → μ → ℝ) (p : μ → ν) (new : ι → ν) (γ : ℝ)
+    (hWl : ∀ a b, Wl a b = agg W cur a b) (hnew : ∀ x, new x = p (cur x)) :
+    (∀ a b, agg Wl p a b = agg W new a b) ∧ tot Wl = tot W ∧ Q Wl p γ = Q W new γ := by
+  have : new = p ∘ cur := by funext x; exact hnew x
+  rw [this]
+  exact ⟨fun a b => agg_comp W cur p Wl hWl a b, tot_agg W cur Wl hWl, Q_agg_comp W cur p Wl hWl γ⟩
+
+/-- `lemma_agg_identity(W, c, n)`: with singleton labels (`c[y] == y + 1`, here `c = id`) the aggregate is the matrix itself -/
+theorem agg_id (W : ι → ι → ℝ) (a b : ι) : agg W (fun x => x) a b = W a b := by
+  unfold agg
+  rw [Finset.sum_eq_single a]
+  · rw [Finset.sum_eq_single b]
+    · simp
+    · intro y _ hy; simp [hy]
+    · intro hn; exact absurd (mem_univ _) hn
+  · intro x _ hx
+    apply Finset.sum_eq_zero
+    intro y _; simp [hx]
+  · intro hn; exact absurd (mem_univ _) hn
+
+end aggcompose
+
 -- NOT PROVED HERE: nothing was left out; every quantified fact of `spec_axioms()` and every `lemma_*` instance of
 -- engine/pyvc/core.py has a theorem above (see README.md for the table).  Three SMT axioms are not theorems but
 -- definitions / typing facts of this formalisation:
@@ -1082,5 +1206,6 @@ end dotsupport
 --   * `sdist(G,x,y) >= 0`, range facts of the Skolem functions `walkmid walkfirst splitz dotwit` : typing (`ℕ`, `z : ι`).
 -- (second batch: singletons, Qrawg / QrawB gain, relabel_g, umul linearity, walks incl. split and pigeonhole, dot support:
 --  all proved.)
+-- (third batch: aggregation composes — `agg_comp`, `tot_agg`, `Q_agg_comp`, `agg_compose_smt` for `lemma_agg_compose`: all proved.)
 
 end VerifLemmas
